@@ -74,11 +74,25 @@ theorem life_all_histories (M : Dur) (hcount : CountPreserved) (ops : List Op) (
       · rw [h]; exact ⟨i1, hs1⟩
       · exact ih s1 hs1 i1 (hrest s1 hst) s' h
 
+theorem addBalance_count (s : State) (b : Addr × Denom × Int) (h : CountInv s) : CountInv (addBalance s b) := by
+  unfold addBalance
+  split
+  · exact h
+  · exact ⟨h.plans, h.subs, h.allocs, h.payouts, h.sessions, h.planIdx, h.subIdx, h.sessIdx⟩
+
+/-- `CountInv` of a genesis state (all hub tables empty); proved here so that the genesis theorems
+below do not need it as a hypothesis. -/
+theorem genesis_countInv (g : Genesis) : CountInv g.state := by
+  unfold Genesis.state
+  refine foldl_inv CountInv addBalance (fun s b h => addBalance_count s b h) _ _ ?_
+  refine ⟨?_, ?_, ?_, ?_, ?_, ⟨?_, ?_⟩, ⟨?_, ?_, ?_, ?_, ?_, ?_, ?_, ?_⟩, ⟨?_, ?_, ?_, ?_, ?_⟩⟩ <;>
+    intros <;> simp_all [Genesis.base, Tbl.has]
+
 /-- From a genesis state of the configuration domain whose delays lie around `M`. -/
-theorem life_from_genesis (M : Dur) (hcount : CountPreserved) (g : Genesis) (hgc : CountInv g.state)
+theorem life_from_genesis (M : Dur) (hcount : CountPreserved) (g : Genesis)
     (h1 : 0 < g.params.sessDelay) (h2 : g.params.sessDelay ≤ M) (h3 : M ≤ g.params.subDelay)
-    (ops : List Op) (hh : HistOK M g.state ops) : ∀ s' ∈ runTrace g.state ops, LifeInv M s' :=
-  fun s' h => (life_all_histories M hcount ops g.state (genesis_side g hgc) (genesis_life g h1 h2 h3) hh s' h).1
+    (ops : List Op) (hh : HistOK M g.state ops) : ∀ s' ∈ runTrace g.state ops, LifeInv M s' ∧ Side s' :=
+  fun s' h => life_all_histories M hcount ops g.state (genesis_side g (genesis_countInv g)) (genesis_life g h1 h2 h3) hh s' h
 
 /-- Consequence (the reason for the coupling): whenever the end-of-block session hook settles a
 session, the session's subscription exists — `SessionInactiveHook` cannot fail with
@@ -603,5 +617,284 @@ theorem timely {s s' : State} (h : endBlock s = .ok s') (hs : Side s) (hr : RecI
     (∀ a n, s'.nodeActive.get a = some n → s.time < n.inactiveAt) :=
   ⟨(timely_sessions h hs hd1).1, (timely_subs h hs hd2).1, (timely_nodes h hr hn).1, (timely_sessions h hs hd1).2,
     (timely_subs h hs hd2).2, (timely_nodes h hr hn).2⟩
+
+/-! ## 6. Settlement and hourly payouts
+
+The model has no call trace; "a removed session is settled exactly once" is expressed through the
+call sites and the permanence of removal:
+* `Hub.Model.sessionStep_settles` — `sessionStep` (the only caller of `SessionInactiveHook`) invokes
+  the hook exactly in its removal branch, for a session that is not active, and deletes the record
+  in the same step;
+* `settles_iff_removed` — in terms of whole operations: session `i` is settled in an operation iff
+  the operation is an end of block at which `i` is not active and due, iff `i` is removed by it;
+* `retired_forever` / `settled_once` — a removed session id never carries a record again (ids are
+  issued by an increasing counter), so no later operation settles it a second time. -/
+
+/-- Session `i` is settled (and removed) by this operation. -/
+def Settles (s : State) (op : Op) (i : Nat) : Prop :=
+  op = .endB ∧ ∃ x, s.sessions.get i = some x ∧ x.status ≠ .StatusActive ∧ x.inactiveAt ≤ s.time
+
+/-- The id has been issued and carries no record: the session is gone. -/
+def Retired (s : State) (i : Nat) : Prop := s.sessions.get i = none ∧ i ≤ s.sessCount.getD 0
+
+theorem settles_iff_removed {s s' : State} {op : Op} (h : step s op = some s') (hs : Side s) {i : Nat} {x : Session}
+    (hx : s.sessions.get i = some x) : Settles s op i ↔ s'.sessions.get i = none := by
+  constructor
+  · rintro ⟨rfl, x', hx', hna, hdue⟩
+    rw [hx] at hx'; simp only [Option.some.injEq] at hx'; subst hx'
+    simp only [step] at h
+    split at h
+    · rename_i s1 hb
+      simp only [Option.some.injEq] at h; subst h
+      have e := (endBlock_spec hb hs.count hs.sessIdx hs.subQ).sessDue i x hx hdue
+      simpa [expireSess, hna] using e
+    · contradiction
+  · intro h'
+    obtain ⟨hop, hna, hdue⟩ := (removed_only_when_pending h hs).1 i x hx h'
+    exact ⟨hop, x, hx, hna, hdue⟩
+
+theorem settle_retires {s s' : State} {op : Op} (h : step s op = some s') (hs : Side s) {i : Nat}
+    (hset : Settles s op i) : Retired s' i := by
+  obtain ⟨_, x, hx, _, _⟩ := id hset
+  refine ⟨(settles_iff_removed h hs hx).mp hset, ?_⟩
+  exact Nat.le_trans (hs.count.sessions i x hx).2.2.1 (step_sessCount_mono h)
+
+theorem retired_stays {s s' : State} {op : Op} (h : step s op = some s') (hs : Side s) {i : Nat} (hr : Retired s i) :
+    Retired s' i := by
+  refine ⟨?_, Nat.le_trans hr.2 (step_sessCount_mono h)⟩
+  cases hg : s'.sessions.get i with
+  | none => rfl
+  | some x' =>
+    have := ((created_only_active h hs).1 i x' hr.1 hg).1
+    have := hr.2
+    omega
+
+theorem retired_forever (hcount : CountPreserved) (ops : List Op) (s : State) (hs : Side s) {i : Nat} (hr : Retired s i) :
+    ∀ s' ∈ runTrace s ops, Retired s' i := by
+  induction ops generalizing s with
+  | nil => intro s' h; simp [runTrace] at h
+  | cons op rest ih =>
+    intro s' h
+    simp only [runTrace] at h
+    cases hst : step s op with
+    | none => simp [hst] at h
+    | some s1 =>
+      simp only [hst, List.mem_cons] at h
+      have r1 := retired_stays hst hs hr
+      rcases h with h | h
+      · rw [h]; exact r1
+      · exact ih s1 (step_side hcount hst hs) r1 s' h
+
+/-- **`settled_once`**: after the operation that settles (and removes) session `i`, no operation of
+any continuation of the history settles `i` again. -/
+theorem settled_once (hcount : CountPreserved) {s s' : State} {op : Op} (h : step s op = some s') (hs : Side s) {i : Nat}
+    (hset : Settles s op i) (ops : List Op) :
+    ∀ s'' ∈ s' :: runTrace s' ops, ∀ op', ¬ Settles s'' op' i := by
+  have r0 := settle_retires h hs hset
+  intro s'' hm op' ⟨_, x, hx, _⟩
+  have : Retired s'' i := by
+    rcases List.mem_cons.mp hm with e | e
+    · rw [e]; exact r0
+    · exact retired_forever hcount ops s' (step_side hcount h hs) r0 s'' e
+  rw [this.1] at hx; simp at hx
+
+/-- **`payout_at_most_once_per_block`**: `BeginBlock` at time `t` advances exactly the payouts that
+are scheduled (`payQ`) at or before `t`, each exactly once (`ids` has no duplicates), by exactly one
+hour (`payoutAdvance_spec`); every other payout record is untouched.  Hence a payout is never paid
+before it is due, and never twice for the same due hour. -/
+theorem payout_at_most_once_per_block {s s' : State} {t : Time} (h : beginBlock s t = .ok s') (hc : CountInv s) (hi : SubIdx s) :
+    ∃ ids : List Nat, ids.Nodup ∧
+      (∀ i, i ∈ ids ↔ ∃ p, s.payouts.get i = some p ∧ s.payQ.has (p.nextAt, i) = true ∧ p.nextAt ≤ t) ∧
+      (∀ i, s'.payouts.get i = if i ∈ ids then (s.payouts.get i).map payoutAdvance else s.payouts.get i) :=
+  beginBlock_payouts h (PayQOK.of hc hi)
+
+/-- A payout record changed by `BeginBlock` was due, and was advanced by one hourly payment. -/
+theorem payout_never_early {s s' : State} {t : Time} (h : beginBlock s t = .ok s') (hc : CountInv s) (hi : SubIdx s)
+    {i : Nat} {p : Payout} (hp : s.payouts.get i = some p) (hne : s'.payouts.get i ≠ some p) :
+    p.nextAt ≤ t ∧ s'.payouts.get i = some (payoutAdvance p) ∧ (payoutAdvance p).hours = p.hours - 1 ∧
+    ((payoutAdvance p).nextAt = p.nextAt + hour ∨ (payoutAdvance p).nextAt = zeroTime) := by
+  obtain ⟨ids, _, hm, hs⟩ := payout_at_most_once_per_block h hc hi
+  have e := hs i
+  by_cases hc' : i ∈ ids
+  · rw [if_pos hc', hp] at e
+    obtain ⟨p', hp', _, hdue⟩ := (hm i).mp hc'
+    rw [hp] at hp'; simp only [Option.some.injEq] at hp'; subst hp'
+    obtain ⟨a, b⟩ := payoutAdvance_spec p
+    exact ⟨hdue, e, a, b.imp id (fun x => x.2)⟩
+  · rw [if_neg hc', hp] at e; exact absurd e hne
+
+/-! ## Non-vacuity: a concrete history inside the hypotheses, exhibiting every transition -/
+
+/-- `HistOK` as a computation along the run. -/
+def histOKB (M : Dur) : State → List Op → Bool
+  | _, [] => true
+  | s, op :: rest =>
+    (match op with
+      | .begin t => decide (s.time < t)
+      | .gov c => decide (0 < ((gov s c).getD s).params.sessDelay) && decide (((gov s c).getD s).params.sessDelay ≤ M) &&
+          decide (M ≤ ((gov s c).getD s).params.subDelay)
+      | _ => true) &&
+    (match step s op with
+      | some s' => histOKB M s' rest
+      | none => true)
+
+theorem histOK_of_B (M : Dur) (ops : List Op) (s : State) (h : histOKB M s ops = true) : HistOK M s ops := by
+  induction ops generalizing s with
+  | nil => trivial
+  | cons op rest ih =>
+    simp only [histOKB, Bool.and_eq_true] at h
+    obtain ⟨h1, h2⟩ := h
+    refine ⟨?_, ?_, ?_⟩
+    · intro t e; subst e; simpa using h1
+    · intro c e; subst e
+      simp only [Bool.and_eq_true, decide_eq_true_eq] at h1
+      exact ⟨h1.1.1, h1.1.2, h1.2⟩
+    · intro s' hs'
+      rw [hs'] at h2
+      exact ih s' h2
+
+def p0 : Params :=
+  { provDeposit := ⟨"udvpn", 0⟩, provShare := 0, nodeDeposit := ⟨"udvpn", 0⟩, activeDur := 86400000000000,
+    maxGB := [], minGB := [], maxHr := [], minHr := [], maxSubGB := 10, minSubGB := 1, maxSubHr := 10, minSubHr := 1,
+    nodeShare := 0, subDelay := 7200000000000, sessDelay := 7200000000000, proof := false, swapOn := false,
+    swapDenom := "udvpn", approveBy := [1] }
+
+def g0 : Genesis := { time := 1700000000000000000, params := p0, balances := [([3], "udvpn", 1000000)] }
+
+def acc (b : UInt8) : TextAddr := { role := .acc, bytes := [b] }
+def nod (b : UInt8) : TextAddr := { role := .node, bytes := [b] }
+
+/-- A node, a per-gigabyte subscription and a session; the session is ended by its owner and the
+subscription cancelled one hour later (both pending for two hours); governance re-sets a delay
+inside the bound; after the deadlines both are removed at the end of a block (the session is settled
+first); one day after its activation the node expires. -/
+def hist : List Op := [
+  .begin 1700000005000000000,
+  .tx (.nodeRegister (acc 2) (some [⟨"udvpn", 10⟩]) (some [⟨"udvpn", 5⟩]) [104] true),
+  .tx (.nodeStatus (nod 2) 1),
+  .tx (.nodeSubscribe (acc 3) (nod 2) 1 0 "udvpn"),
+  .tx (.sessStart (acc 3) 1 (nod 2)),
+  .endB,
+  .begin 1700003600000000000,
+  .tx (.sessEnd (acc 3) 1 0),
+  .tx (.subCancel (acc 3) 1),
+  .gov (.sessDelay 3600000000000),
+  .endB,
+  .begin 1700010810000000000,
+  .endB,
+  .begin 1700090000000000000,
+  .endB]
+
+/-- The history satisfies the hypotheses of `life_from_genesis` for `M` = two hours … -/
+example : HistOK 7200000000000 g0.state hist := histOK_of_B _ _ _ (by decide +kernel)
+
+example : 0 < g0.params.sessDelay ∧ g0.params.sessDelay ≤ 7200000000000 ∧ (7200000000000 : Dur) ≤ g0.params.subDelay := by decide
+
+/-- … it does not halt, and the session, the subscription and the node go through exactly the
+statuses of the property: absent, active, inactive-pending, removed (resp. active, expired). -/
+example :
+    (runTrace g0.state hist).length = hist.length ∧
+    (runTrace g0.state hist).map (fun s => (s.sessions.get 1).map (·.status)) =
+      [none, none, none, none, some .StatusActive, some .StatusActive, some .StatusActive, some .StatusInactivePending,
+       some .StatusInactivePending, some .StatusInactivePending, some .StatusInactivePending, some .StatusInactivePending,
+       none, none, none] ∧
+    (runTrace g0.state hist).map (fun s => (s.subs.get 1).map (·.status)) =
+      [none, none, none, some .StatusActive, some .StatusActive, some .StatusActive, some .StatusActive, some .StatusActive,
+       some .StatusInactivePending, some .StatusInactivePending, some .StatusInactivePending, some .StatusInactivePending,
+       none, none, none] ∧
+    (runTrace g0.state hist).map (fun s => (s.nodeActive.get [2]).isSome) =
+      [false, false, true, true, true, true, true, true, true, true, true, true, true, true, false] := by
+  decide +kernel
+
+/-- The standing facts hold at the start (and hence, by `step_side`, along the history). -/
+example : Side g0.state := genesis_side g0 (genesis_countInv g0)
+
+/-! ## Why `SubQOK` is a hypothesis: `EndBlock` breaks the coupling on a state with a stale queue entry -/
+
+def cxSess : Session :=
+  { id := 1, sub := 1, node := [7], addr := [9], up := 0, down := 0, dur := 0, inactiveAt := 500,
+    status := .StatusInactivePending, statusAt := 0 }
+def cxSub : Sub :=
+  { id := 1, addr := [9], inactiveAt := 1000, status := .StatusInactivePending, statusAt := 0, kind := .plan 1 "udvpn" }
+def cxBase : State :=
+  { time := 10, subCount := some 1, sessCount := some 0, subs := [(1, cxSub)], subQ := [((5, 1), ())],
+    params := { p0 with sessDelay := 1, subDelay := 1000 } }
+def cxState : State := insertSession cxBase cxSess
+
+theorem cxBase_sessInv : SessInv cxBase := by
+  refine ⟨?_, ?_, ?_, ?_, ?_, ?_, ?_⟩
+  · intro i x h; simp [cxBase] at h
+  · intro t i; simp [cxBase, Tbl.has]
+  · intro t i; simp [cxBase, Tbl.has]
+  · intro t i; simp [cxBase, Tbl.has]
+  · intro t i; simp [cxBase, Tbl.has]
+  · intro u a i; simp [cxBase, Tbl.has]
+  · exact ⟨Tbl.nodup_nil, Tbl.nodup_nil, Tbl.nodup_nil, Tbl.nodup_nil, Tbl.nodup_nil, Tbl.nodup_nil⟩
+
+theorem cx_sessIdx : SessIdx cxState := (insertSession_sessInv (s := cxBase) (x := cxSess) rfl cxBase_sessInv).2
+
+theorem cx_count : CountInv cxState := by
+  refine ⟨?_, ?_, ?_, ?_, ?_, ⟨?_, ?_⟩, ⟨?_, ?_, ?_, ?_, ?_, ?_, ?_, ?_⟩, ⟨?_, ?_, ?_, ?_, ?_⟩⟩
+  all_goals
+    intros
+    simp_all [cxState, cxBase, cxSess, cxSub, insertSession, Tbl.set, Tbl.get_cons, Tbl.has]
+  · rename_i i x h; obtain ⟨rfl, rfl⟩ := h; rfl
+  · rename_i i x h; obtain ⟨rfl, rfl⟩ := h; simp
+  · rename_i u i h; omega
+  · rename_i u a i h; omega
+
+theorem cx_sess {i : Nat} {x : Session} (h : cxState.sessions.get i = some x) : i = 1 ∧ x = cxSess := by
+  have : cxState.sessions = [(1, cxSess)] := rfl
+  rw [this, Tbl.get_cons] at h
+  split_ifs at h with hc
+  · exact ⟨hc.symm, (Option.some.inj h).symm⟩
+  · simp at h
+
+theorem cx_subs {i : Nat} {y : Sub} (h : cxState.subs.get i = some y) : i = 1 ∧ y = cxSub := by
+  have : cxState.subs = [(1, cxSub)] := rfl
+  rw [this, Tbl.get_cons] at h
+  split_ifs at h with hc
+  · exact ⟨hc.symm, (Option.some.inj h).symm⟩
+  · simp at h
+
+theorem cx_life : LifeInv 1000 cxState := by
+  refine ⟨by decide, ?_, ?_, ?_, ?_, ?_, ?_⟩
+  · intro i x hx; obtain ⟨rfl, rfl⟩ := cx_sess hx; exact ⟨cxSub, rfl⟩
+  · intro i x hx; obtain ⟨rfl, rfl⟩ := cx_sess hx; exact Or.inr rfl
+  · intro i y hy; obtain ⟨rfl, rfl⟩ := cx_subs hy; exact Or.inr rfl
+  · intro i x y hx _ ha; obtain ⟨rfl, rfl⟩ := cx_sess hx; exact absurd ha (by decide)
+  · intro i x y hx hy _; obtain ⟨rfl, rfl⟩ := cx_sess hx; obtain ⟨_, rfl⟩ := cx_subs hy; decide
+  · intro i x hx; obtain ⟨rfl, rfl⟩ := cx_sess hx; decide
+
+def cxCheck : Bool :=
+  match endBlock cxState with
+  | .ok s' => (s'.subs.get 1).isNone && ((s'.sessions.get 1).map (·.sub) == some 1)
+  | .error _ => false
+
+theorem cxCheck_true : cxCheck = true := by decide +kernel
+
+/-- Without the queue fact `SubQOK`, `LifeInv` is *not* preserved by `EndBlock`, even under `CountInv`
+and `SessIdx`: a stale entry in the subscription deadline queue makes the hook remove a pending
+subscription before its deadline while one of its sessions is still winding down. -/
+theorem endBlock_life_needs_subQOK :
+    ∃ s s', CountInv s ∧ SessIdx s ∧ LifeInv 1000 s ∧ ¬ SubQOK s ∧ endBlock s = .ok s' ∧ ¬ LifeInv 1000 s' := by
+  have hc := cxCheck_true
+  unfold cxCheck at hc
+  cases he : endBlock cxState with
+  | error e => rw [he] at hc; simp at hc
+  | ok s' =>
+    rw [he] at hc
+    simp only [Bool.and_eq_true, Option.isNone_iff_eq_none, beq_iff_eq, Option.map_eq_some_iff] at hc
+    obtain ⟨h1, x, h2, h3⟩ := hc
+    refine ⟨cxState, s', cx_count, cx_sessIdx, cx_life, ?_, he, ?_⟩
+    · intro hq
+      obtain ⟨y, hy, hyt⟩ := (hq.q 5 1).mp (by decide)
+      obtain ⟨_, rfl⟩ := cx_subs hy
+      exact absurd hyt (by decide)
+    · intro hl
+      obtain ⟨y, hy⟩ := hl.sessSub 1 x h2
+      rw [h3, h1] at hy
+      simp at hy
+
 
 end Hub.Props.C04
